@@ -12,6 +12,10 @@ use std::io;
 ///   log2((2^11 / 31) ^ 22) + 26 < 134 + 26 = 160
 const MAX_REQUIRED_INPUT: usize = 20;
 
+/// Verification hook: exposes [`MAX_REQUIRED_INPUT`].
+#[cfg(lzma_rs_verif)]
+pub(crate) const VERIF_MAX_REQUIRED_INPUT: usize = MAX_REQUIRED_INPUT;
+
 /// Processing mode for decompression.
 ///
 /// Tells the decompressor if we should expect more data after parsing the
